@@ -616,8 +616,11 @@ namespace Pistache::Http::Experimental
 
     void Connection::close()
     {
+        // once the state is published another thread may claim the connection and
+        // open a new socket for it
+        const Fd fd = fd_;
         connectionState_.store(NotConnected);
-        ::close(fd_);
+        ::close(fd);
     }
 
     void Connection::associateTransport(
